@@ -57,6 +57,17 @@ Definition entry_matchb (name e : bytes) : bool :=
        && bytes_eqb (lower (skipn (length name - length e) name)) (lower e)
   else bytes_eqb (lower name) (lower e).
 
+(** lists loaded with loadlistfd and matched with lib/match.c:matchdomain: the same,
+    except that a dot-led entry also matches the name that equals it *)
+Definition expr_matches (e name : bytes) : Prop :=
+  if dot_led e then ci_suffix e name else lower name = lower e.
+
+Definition expr_matchb (name e : bytes) : bool :=
+  if dot_led e
+  then Nat.leb (length e) (length name)
+       && bytes_eqb (lower (skipn (length name - length e) name)) (lower e)
+  else bytes_eqb (lower name) (lower e).
+
 Definition fd_spec (buf name : bytes) : bool := existsb (entry_matchb name) (fd_entries buf).
 
 (** ---------------------------------------------------------------- networks *)
